@@ -111,6 +111,18 @@ claimed.update({
    technique="exhaustive enumeration of short constructor/call histories, one fresh process per history, against a struct-copy model",
    design="5/C18"),
 })
+claimed.update({
+ "C19": dict(
+   text="Explicit exploration of the real FileSystem backend in a sandbox directory: all store/retrieve histories of <=3 operations over 8 identifier strings (path separators, dot-dot, absolute path, unicode, 300 characters, empty), 2 (thorough 4) documents and both no-clobber settings from 4 start states of the configured path (exists, missing, nested missing, is a file) against a map[id]doc reference model with confinement by scanning the sandbox, directory usability and error-not-exit (process exit observed through the logrus exit hook, panics and worker deaths attributed); <=1 injected fault (EIO/EACCES/ENOSPC) at every vfs step of the last operation of every history of <=2 operations; every truncation, garbage and directory replacement of a stored entry.",
+   note="Trusted: the vfs seam (import rewrite of pkg/storage generated from the current sources; falls back to no fault injection with seam_vfs:false if it cannot be applied) and the map model. Root-only sandbox: usability judged on mode bits.",
+   technique="explicit-state search over store/retrieve histories against a map model with exhaustive single-fault injection through a file-system seam",
+   design="5/C19"),
+ "C20": dict(
+   text="Exhaustive crash-point enumeration of the real Store through the vfs seam on real directories: for 6 (thorough 9) histories (first store, overwrite by a larger and by a smaller document, overwrite next to another entry, store into a missing directory, no-clobber store) the storing call is killed before every file-system step and after every byte prefix of every write (process-death model), then a fresh backend retrieves: the complete previous document, the complete new document or an error; a completed store must be retrievable; other entries intact.",
+   note="Trusted: the vfs seam's step decomposition (os-level calls; WriteFile = create/truncate, write, close) and the process-death model. Without the seam the check reports exhaustive:false (cap vfs-seam-unavailable).",
+   technique="exhaustive crash-point and torn-write enumeration of the real store through a file-system seam",
+   design="5/C20"),
+})
 pending = {}
 all_ids = ["C%02d" % i for i in range(1, 21)]
 checks = []
